@@ -52,6 +52,7 @@ def configs(tier):
         add("sdrB-1p-K3-norefresh", refresh=False, K=3, **SDR_B)
         add("sdrB-1p-K2-refresh-W25", refresh=True, K=2, window=25, **SDR_B)
         add("sdrA-2p-K2-norefresh", refresh=False, K=2, nports=2, banks=(0,), **SDR_A)
+        add("sdrA-2p-K2-2banks-1row-norefresh", refresh=False, K=2, nports=2, rows=(0,), **SDR_A)
         add("ddr3x4-100MHz-1p-K3-norefresh", refresh=False, K=3, **ddr3(100))
         add("ddr3x4-100MHz-1p-K2-refresh-W20", refresh=True, K=2, window=20, **ddr3(100))
         add("ddr3x4-200MHz-1p-K3-norefresh", refresh=False, K=3, **ddr3(200))
